@@ -131,7 +131,7 @@ MTiles(n) == HashTiles(n) \cup DataTiles(n)
 \* tile x of tree t is servable: present with the right content, or (partial)
 \* covered by a wider tile of the same index with the right content
 HasTile(t, x) == \/ \E s \in store : s.t = x /\ (s.f = t.f \/ (x.n * TW + x.w) * Pow(TW, x.l) <= ForkPoint)
-                 \/ (x.w < TW /\ \E s \in store : s.t.k = x.k /\ s.t.l = x.l /\ s.t.n = x.n /\ s.t.w > x.w
+                 \/ (x.w < TW /\ \E s \in store : s.t.k = x.k /\ s.t.l = x.l /\ s.t.n = x.n /\ s.t.w = TW
                                                    /\ (s.f = t.f \/ (s.t.n * TW + s.t.w) * Pow(TW, s.t.l) <= ForkPoint))
 Servable(t) == \A x \in MTiles(t.n) : HasTile(t, x)
 
